@@ -2,6 +2,7 @@ package main
 
 import (
 	"fmt"
+	"go/token"
 	"go/types"
 	"sort"
 
@@ -684,6 +685,122 @@ func runMonitorConfined(p *Program, r *RuleResult) {
 	default:
 		for e, where := range entries {
 			r.add(fnName(e), "one-owning-goroutine", Violated, where[0], fmt.Sprintf("goroutines with different entry functions (%v) reach the monitor's maps: they are read and written concurrently without synchronisation", names))
+		}
+	}
+	// anyone else who reads the tables (the driver, after the run) first synchronises with
+	// the monitor goroutine: a blocking send on one of the monitor's channels, directly or
+	// in a callee on all of its paths, precedes the access
+	var owner *ssa.Function
+	for e := range entries {
+		owner = e
+	}
+	ownerReach := map[*ssa.Function]bool{}
+	if owner != nil && len(entries) == 1 {
+		ownerReach = p.reachableFuncs([]*ssa.Function{owner}, useCHA)
+	}
+	blockingSend := func(in ssa.Instruction) bool {
+		snd, ok := in.(*ssa.Send)
+		if !ok {
+			return false
+		}
+		ch := snd.Chan
+		if ld, ok := ch.(*ssa.UnOp); ok {
+			ch = ld.X
+		}
+		fa, ok := ch.(*ssa.FieldAddr)
+		if !ok {
+			return false
+		}
+		n := namedOf(fa.X.Type())
+		return n != nil && n.Obj() == mon.Obj()
+	}
+	var alwaysSyncs func(fn *ssa.Function, d int) bool
+	alwaysSyncs = func(fn *ssa.Function, d int) bool {
+		if fn == nil || fn.Blocks == nil || d > 3 {
+			return false
+		}
+		v := p.View(fn)
+		pred := func(in ssa.Instruction) bool {
+			if blockingSend(in) {
+				return true
+			}
+			if c, ok := in.(*ssa.Call); ok {
+				return alwaysSyncs(c.Common().StaticCallee(), d+1)
+			}
+			return false
+		}
+		must := v.mustPassBefore(pred)
+		for _, b := range v.Blocks() {
+			ins := v.Instrs(b)
+			if _, ok := ins[len(ins)-1].(*ssa.Return); !ok {
+				continue
+			}
+			passed := must[b]
+			for _, in := range ins {
+				if pred(in) {
+					passed = true
+				}
+			}
+			if !passed {
+				return false
+			}
+		}
+		return true
+	}
+	for fn := range touches {
+		if ownerReach[fn] || len(entries) != 1 {
+			continue
+		}
+		// an accessor outside the monitor goroutine; one that nothing calls is only noted
+		called := false
+		for _, g2 := range p.SrcFuncs {
+			for _, c := range p.callsIn(g2) {
+				if c.Common().StaticCallee() == fn {
+					called = true
+				}
+			}
+		}
+		// the exported methods of the runtime environment are the driver's API: judged even
+		// when only tests call them
+		if recv := fn.Signature.Recv(); recv != nil && isNamed(derefT(recv.Type()), processPkg, "RuntimeEnvironment") && token.IsExported(fn.Name()) {
+			called = true
+		}
+		if !called {
+			r.note("accessor without callers (not judged): %s", fnName(fn))
+			continue
+		}
+		view := p.View(fn)
+		for _, b := range fn.Blocks {
+			for _, in := range b.Instrs {
+				fa, ok := in.(*ssa.FieldAddr)
+				if !ok {
+					continue
+				}
+				if n := namedOf(fa.X.Type()); n == nil || n.Obj() != mon.Obj() {
+					continue
+				}
+				switch fa.Type().Underlying().(*types.Pointer).Elem().Underlying().(type) {
+				case *types.Map, *types.Slice:
+				default:
+					continue
+				}
+				_, f, _ := fieldNameOf(fa)
+				construct := "outside-access-after-handshake:" + f
+				synced := view.passedBefore(fa, func(x ssa.Instruction) bool {
+					if blockingSend(x) {
+						return true
+					}
+					if c, ok := x.(*ssa.Call); ok {
+						return alwaysSyncs(c.Common().StaticCallee(), 0)
+					}
+					return false
+				})
+				if synced {
+					r.add(fnName(fn), construct, Holds, p.instrPos(fa), "read after a blocking send to the monitor goroutine")
+				} else {
+					r.add(fnName(fn), construct, Violated, p.instrPos(fa), fmt.Sprintf("%s reads the monitor's %s from outside the monitor goroutine without a blocking hand-shake before it on every path (a send that may be skipped, e.g. in a select with a default, does not order the two goroutines): the monitor can still be appending", fnName(fn), f))
+				}
+			}
 		}
 	}
 	// process goroutines do not touch them
